@@ -28,7 +28,8 @@ I10 == InsnLine("7ffff7dd0000", <<"75", "f0">>, "jne", <<Target("7ffff7dcfff2")>
 I11 == InsnLine("0", <<"8d", "04", "85", "00", "00", "00", "00">>, "lea", <<Mem("0x0", "", "%rax", "4"), Reg("%eax")>>)
 I12 == InsnLine("12", <<"ff", "e0">>, "jmp", <<Raw("*%rax")>>)
 I13 == InsnLine("14", <<"90">>, "nop", <<>>)
-Blocks == { <<I1>>, <<I2>>, <<I3>>, <<I4>>, <<I5>>, <<I6, C6>>, <<I7>>, <<I8>>, <<I9>>, <<I10>>, <<I11>>, <<I12>>, <<I13>>,
+I14 == InsnLine("401015", <<"66">>, "data16", <<>>)      \* a lone prefix byte before a symbol / at the end of a section
+Blocks == { <<I1>>, <<I2>>, <<I3>>, <<I4>>, <<I5>>, <<I6, C6>>, <<I7>>, <<I8>>, <<I9>>, <<I10>>, <<I11>>, <<I12>>, <<I13>>, <<I14>>,
             <<BlankLine>>, <<EllipsisLine>>,
             <<BlankLine, HeaderLine("a.out:     file format elf64-x86-64"), BlankLine, BlankLine>>,
             <<SectionLine(".text"), BlankLine, LabelLine("0000000000401000", "main")>>,
